@@ -134,3 +134,60 @@ def lifted_dominated(ctx, b, point, site_pred, _depth=0, _seen=None):
 
 def where(b, p):
     return '%s (%s)' % (b.loc(p), b.path)
+
+
+def const_comparisons(ctx, b, const_suffix):
+    """Comparisons of a value with the named const `const_suffix` in body b, directly (binop) or
+    through a one-comparison helper fn (A-GET style inlining).
+    Returns [dict(point, op, x (operand json), res (result local), via)] with op normalised so that
+    the relation reads `x OP CONST`."""
+    from core import op_const_named
+    out = []
+    swap = {'Lt': 'Gt', 'Gt': 'Lt', 'Le': 'Ge', 'Ge': 'Le', 'Eq': 'Eq', 'Ne': 'Ne'}
+    for bi, blk in enumerate(b.blocks):
+        if not b.live[bi]:
+            continue
+        for si, st in enumerate(blk['stmts']):
+            if st['k'] == 'assign' and st['rv']['k'] == 'binop' and st['rv']['op'] in swap and not st['place']['p']:
+                a, bb = st['rv']['a'], st['rv']['b']
+                na, nb = op_const_named(a), op_const_named(bb)
+                if nb and nb.endswith(const_suffix) and not na:
+                    out.append({'point': b.pstart[bi] + si, 'op': st['rv']['op'], 'x': a, 'res': st['place']['l'], 'via': None})
+                elif na and na.endswith(const_suffix) and not nb:
+                    out.append({'point': b.pstart[bi] + si, 'op': swap[st['rv']['op']], 'x': bb, 'res': st['place']['l'], 'via': None})
+    for cs in b.calls:
+        if cs.node is None or cs.node not in ctx.f.bodies or cs.dest_local() is None:
+            continue
+        cb = ctx.f.bodies[cs.node]
+        if cb.ret_ty != 'bool' or cb.arg_count != 1 or len(cb.calls) != 0:
+            continue
+        inner = const_comparisons(ctx, cb, const_suffix) if cb is not b else []
+        for c in inner:
+            # the helper compares its own parameter and returns the result
+            xl = op_local(c['x'])
+            from_param = xl is not None and any(o[0] == 'param' and o[1] == 1 for o in cb.trace_local(xl))
+            if from_param and (c['res'] == 0 or any(o[0] == 'rv' and o[1] == c['point'] for o in cb.trace_local(0))):
+                out.append({'point': cs.point, 'op': c['op'], 'x': cs.args[0], 'res': cs.dest_local(), 'via': cb.path})
+    return out
+
+
+def switch_on_result(b, comp):
+    """Switch blocks consuming the boolean result of comparison `comp`: [(block, true_edge, false_edge)]"""
+    out = []
+    for bj, blk in enumerate(b.blocks):
+        if not b.live[bj] or blk['term']['k'] != 'switch':
+            continue
+        c = b.switch_cond(bj)
+        if not c or c['kind'] != 'bool':
+            continue
+        hit = c.get('local') == comp['res']
+        for o in c['origin']:
+            if o[0] == 'rv' and o[1] == comp['point']:
+                hit = True
+            if o[0] == 'call' and o[1].point == comp['point']:
+                hit = True
+        if hit:
+            e = b.bool_edges(bj)
+            if e:
+                out.append((bj, e[0], e[1]))
+    return out
